@@ -107,9 +107,12 @@ def c02(run):
                 "BclSem gives it (prints, block tree, compile/runtime error), run through bcl.Interpret. Non-trivial = block body of "
                 "at least two items; distinct by source text.")
     mc_chain(run, "scope", 1 if run.quick else 2)
+    mc_chain(run, "fields3", 1)
     # many variables: slot numbers and pop counts across 240/241 and 255/256, every operand value 0..40 (closed-form outcome)
     run.gen_replay("Gen_Total", cfg(constants=dict(Scope="varscale", MaxLen=1), invariants=("Emit",)), ["replay-total"], "C02:varscale")
     run.gen_replay("Gen_Prog", gen_cfg(dict(Scope="scope", MaxItems=2)), ["replay-prog"], "C02:scope")
+    # the same field name at three nesting levels, read from inside and after inner blocks have ended
+    run.gen_replay("Gen_Prog", gen_cfg(dict(Scope="fields3", MaxItems=1)), ["replay-prog"], "C02:fields3")
     tv_vm(run, "C02:vm", 500 if run.quick else 5000, seed_off=2)
     run.exhaustive = True
 
@@ -363,6 +366,8 @@ def c10(run):
     # the jump-distance limit: beyond 65535 bytes the compiler must reject (a wrapped operand would break the invariants above);
     # dumps of that size are not fed to TLC, the closed-form expectation of Gen_Total is replayed instead
     run.gen_replay("Gen_Total", cfg(constants=dict(Scope="scale", MaxLen=1), invariants=("Emit",)), ["replay-total"], "C10:limits")
+    # constant indices across the operand classes (240/241, 2287/2288, 65535/65536): an identifier met late and used again
+    run.gen_replay("Gen_Total", cfg(constants=dict(Scope="constscale", MaxLen=1), invariants=("Emit",)), ["replay-total"], "C10:consts")
     run.extra["programs"] = n
     run.exhaustive = False
 
@@ -572,6 +577,7 @@ def c20(run):
     run.gen_replay("Gen_Layout", cfg(constants=dict(Scope="render", MaxItems=1), invariants=("Emit", "SameTokens")), ["replay-layout"], "C20:render")
     run.gen_replay("Gen_Layout", cfg(constants=dict(Scope="strings", MaxItems=3), invariants=("Emit",)), ["replay-layout"], "C20:strings")
     run.gen_replay("Gen_Layout", cfg(constants=dict(Scope="comment", MaxItems=1), invariants=("Emit",)), ["replay-layout"], "C20:comment")
+    run.gen_replay("Gen_Layout", cfg(constants=dict(Scope="badchar", MaxItems=1), invariants=("Emit",)), ["replay-layout"], "C20:badchar")
     # two and three items per block: 40 styles x 134^2 (134^3) programs are sampled, seeded (the exhaustive product does not finish)
     run.gen_replay("Gen_Layout", cfg(constants=dict(Scope="render", MaxItems=3), invariants=("Emit", "SameTokens")), ["replay-layout"], "C20:sim",
                    simulate=10 ** 9, depth=6, workers=1, max_cases=4000 if q else 60000, timeout=2400)
